@@ -645,6 +645,169 @@ def evaluate(ctx, seqs, results, use_model=True):
                         ctx.disagree(dict(case, budget=k), obs["recs"], recs, "recovered-recover_messages")
 
 
+# ----------------------------------------------------------------------------------------
+# large journals: atomicity must not depend on the amount of data one operation rewrites
+# ----------------------------------------------------------------------------------------
+# SQLite's atomic commit is an ASSUMPTION of Fix/Sqlite.v (trusted base).  It holds for the rollback-journal and WAL modes
+# and is lost when the code switches the rollback journal off or into memory (dirty pages beyond the 2 MB page cache are
+# spilled into the database file before COMMIT) or when one operation is split into several transactions for long journals.
+# Neither is visible on the small histories above, so one journal with more than 1000 rows / 3 MB per direction is built
+# once with the real Journaler and a renumbering (full reset, partial truncation) is killed at EVERY execute / commit call.
+
+BIG_ROWS, BIG_TAIL = 1200, 3000
+
+
+def big_digest(path):
+    """(sessions listing, sorted (seqNo, direction, session, sha1(msg)) of every stored message, usable?) via a fresh Journaler."""
+    import hashlib
+    im = None
+    try:
+        im = jc.Impl(path)
+        sessions = im.step([5])
+        rows = sorted((r[0], r[2], r[3], hashlib.sha1(bytes(r[1])).hexdigest()) for r in im.j.get_all_msgs(None, None))
+        again = im.step([5])
+        new = im.step([0, "\x7fpost", "\x7fcrash"])
+        h = len(im.hs) - 1
+        w = im.step([1, h, 1, POST])
+        im.step([8])
+        back = im.step([6, [h], None])
+        usable = again == sessions and isinstance(new, list) and new[3:] == [1, 1] and w == 0 and \
+            back == [[1, list(POST), 1, new[0]]]
+        return {"sessions": sessions, "rows": [list(r) for r in rows], "usable": usable}
+    except Exception as e:
+        return {"error": "%s: %s" % (type(e).__name__, str(e)[:200])}
+    finally:
+        if im is not None:
+            im.close()
+
+
+def big_child(path, newout, newin, spec, wfd):
+    st = _State(["none", "setup"], wfd)          # no crash point while the journal is opened and the session loaded
+    import sqlite3
+    real_connect = sqlite3.connect
+    sqlite3.connect = lambda *a, **kw: _PConn(real_connect(*a, **kw), st)
+    im = jc.Impl(path)
+    im.step([0, "A", "B"])
+    # crash points are numbered from the first execute / commit call of the renumbering itself
+    st.spec, st.raw, st.trace = spec, 0, []
+    st.in_op, st.commits_in_op = 1, 0
+    r = im.step([2, 0, newout, newin])
+    st.results.append(r)
+    st.in_op = None
+    st.die("end")
+
+
+def big_run(base, newout, newin, spec, timeout=60):
+    d = jc.tmpdir()
+    path = os.path.join(d, "j.db")
+    try:
+        shutil.copyfile(base, path)
+        rfd, wfd = os.pipe()
+        pid = os.fork()
+        if pid == 0:
+            try:
+                os.close(rfd)
+                big_child(path, newout, newin, spec, wfd)
+            finally:
+                os._exit(3)
+        os.close(wfd)
+        buf, deadline = b"", time.time() + timeout
+        while True:
+            left = deadline - time.time()
+            r = select.select([rfd], [], [], max(left, 0))[0] if left > 0 else None
+            if not r:
+                os.kill(pid, signal.SIGKILL)
+                os.waitpid(pid, 0)
+                os.close(rfd)
+                return {"error": "child hung"}, None
+            chunk = os.read(rfd, 1 << 16)
+            if not chunk:
+                break
+            buf += chunk
+        os.close(rfd)
+        os.waitpid(pid, 0)
+        if not buf:
+            return {"error": "child died without report"}, None
+        return json.loads(buf.decode()), big_digest(path)
+    finally:
+        shutil.rmtree(d, ignore_errors=True)
+
+
+def big_base(base):
+    im = jc.Impl(base)
+    im.step([0, "A", "B"])
+    for direction, tail in ((1, b"o"), (0, b"i")):
+        for n in range(1, BIG_ROWS + 1):
+            assert im.step([1, 0, direction, m(n, tail * BIG_TAIL)]) == 0
+    im.close()
+
+
+def big_family(ctx):
+    """Renumbering of a journal with BIG_ROWS rows of BIG_TAIL bytes per direction, killed at every call."""
+    d = jc.tmpdir()
+    base = os.path.join(d, "base.db")
+    t0 = time.time()
+    try:
+        big_base(base)
+        shutil.copyfile(base, base + ".probe")      # the usability probe writes: never on the base file itself
+        before = big_digest(base + ".probe")
+        if "error" in before or not before["usable"]:
+            ctx.fail({"big": "build"}, "a journal of %d rows per direction cannot be read back: %r" % (BIG_ROWS, before), None)
+            return
+        for newout, newin in ((1, 1), (BIG_ROWS // 2, None), (None, 5)):
+            case0 = {"big_journal": {"rows_per_direction": BIG_ROWS, "message_bytes": BIG_TAIL + 20},
+                     "op": ["set_seq_num", {"next_num_out": newout, "next_num_in": newin}]}
+            rep, after = big_run(base, newout, newin, ["none", "end"])
+            if "error" in rep or after is None or "error" in after:
+                ctx.fail(case0, "crash-free renumbering of a large journal failed: %r %r" % (rep, after), None)
+                continue
+            # the state a completed renumbering must leave, from the property (not from the run)
+            srow = list(before["sessions"][0])
+            if newout is not None:
+                srow[3] = newout
+            if newin is not None:
+                srow[4] = newin
+            want_rows = [r for r in before["rows"]
+                         if not ((r[1] == 1 and newout is not None and r[0] >= newout) or
+                                 (r[1] == 0 and newin is not None and r[0] >= newin))]
+            want = {"sessions": [srow], "rows": want_rows}
+            got = {"sessions": after["sessions"], "rows": after["rows"]}
+            if got != want or not after["usable"]:
+                ctx.fail(case0, "completed renumbering of a large journal: stored counters %r with %d rows, expected %r with %d rows"
+                         % (after["sessions"], len(after["rows"]), want["sessions"], len(want_rows)), None)
+                continue
+            ncalls = len(rep["trace"])
+            for r_ in range(1, ncalls + 1):
+                for when in ("before", "after"):
+                    spec = ["raw", r_, when]
+                    rep2, obs = big_run(base, newout, newin, spec)
+                    case = dict(case0, spec=spec)
+                    ctx.traces += 1
+                    ctx.count("big-journal:call-" + when)
+                    if "error" in rep2:
+                        ctx.fail(case, "crash run on the large journal did not finish: %s" % rep2["error"], None)
+                        continue
+                    started = True
+                    ctx.case((json.dumps(case0, sort_keys=True), tuple(spec)), started)
+                    if obs is None or "error" in obs:
+                        ctx.fail(case, "the journal cannot be reopened / read after the crash: %r" % (obs,), None)
+                        continue
+                    st_ = {"sessions": obs["sessions"], "rows": obs["rows"]}
+                    old = {"sessions": before["sessions"], "rows": before["rows"]}
+                    if st_ != old and st_ != want:
+                        ctx.fail(case, "death inside the renumbering of a large journal (call %d, %s): recovered counters %r with %d "
+                                 "rows are neither the state before it (%r, %d rows) nor after it (%r, %d rows)"
+                                 % (r_, when, obs["sessions"], len(obs["rows"]), before["sessions"], len(before["rows"]),
+                                    want["sessions"], len(want_rows)), None)
+                    elif not obs["usable"]:
+                        ctx.fail(case, "recovered large journal not usable", None)
+                    else:
+                        ctx.count("big-journal:recovered-" + ("before" if st_ == old else "after"))
+    finally:
+        shutil.rmtree(d, ignore_errors=True)
+        ctx.extra["big_journal_s"] = round(time.time() - t0, 1)
+
+
 def plan(ctx):
     """Sequences and their crash-point selection.  The exhaustive part enumerates every sequence up
     to the length bound, so each one only contributes the crash points of its last operation; the
@@ -675,6 +838,7 @@ def run(ctx):
                               "all_crash_points": sum(1 for x in modes if x == "full"),
                               "exhaustive_length_bound": ctx.scale(3, 4)}
     evaluate(ctx, seqs, results)
+    big_family(ctx)
 
 
 def search(ctx, cases):
@@ -694,6 +858,25 @@ def search(ctx, cases):
 def replay(path):
     rec = json.load(open(path))
     case = rec.get("input")
+    if case and case.get("big_journal"):
+        class _C:      # minimal context: re-run the whole large-journal family and print what fails
+            traces = 0
+            extra = {}
+
+            def fail(self, c, what, cls=None):
+                self.bad.append((c, what))
+
+            def count(self, *a):
+                pass
+
+            def case(self, *a, **k):
+                pass
+        c = _C()
+        c.bad = []
+        big_family(c)
+        for cs, what in c.bad:
+            print("  BREACH:", json.dumps(cs), what)
+        return 1 if c.bad else 0
     if not case or not case.get("ops"):
         print("replay: no concrete input; broken:", rec.get("broken"))
         return 1
